@@ -715,6 +715,8 @@ def run(res, tier):
     leaf_centre(facts, res, cobj, geo)
     res.rule("C05.7 transfer terms: every term an M2L handler overload adds to the transformed local expansion depends (through its locals) on the parameter it derives from the level of the call - the scale in the homogeneous handler, the level selecting the table in the non-homogeneous one - and on the transfer code")
     res.floor("C05.7", transfer_terms(facts, res), 2, "accumulations in the M2L handlers")
+    res.rule("C05.8 table extents: the interpolator's per-level table is allocated, filled and read (at the default level the operators use) consistently for every tree height >= 1 - extent and fill range as closed forms in the height, evaluated for heights 1..8")
+    res.floor("C05.8", table_extents(facts, res), 2, "default-level reads of the interpolator table")
     res.rule("C05.6 level-uniform operators: the level argument of M2M / M2L / L2L reaches width and scale arithmetic only (no branch, loop bound or selection depends on it); the kernel names no executor boundary level")
     level_uniform(facts, res, K, "C05.6.level-uniform")
 
@@ -887,4 +889,127 @@ def transfer_terms(facts, res, R="C05.7.transfer-terms"):
                               % (facts.ntext(x)[:70], " / ".join(p_["name"] for p_ in Lp)))
             elif Cp and not any(p_["did"] in d for p_ in Cp):
                 res.violation(R, f, g["qname"], "uncoded@%d" % x["l"][1], x["l"][1], "the term `%s` does not depend on the transfer code (%s)" % (facts.ntext(x)[:70], " / ".join(p_["name"] for p_ in Cp)))
+    return n
+
+
+def table_extents(facts, res, cls="FUnifInterpolator", R="C05.8.table-extent"):
+    """A per-level table of the interpolator is allocated with an extent computed from the tree height and read at a level that the
+    operators either pass or leave to a default argument.  For every valid height (>= 1) every index used must be below the extent, and the
+    entry read must be one the constructor fills.  Decided on closed forms: extent and fill range are expressions in the height H (H,
+    max(H, k), min(k, H), literals), evaluated for H = 1..8; an index is a literal default argument when no caller passes the level."""
+    import sympy
+    H = sympy.Symbol("H", integer=True, positive=True)
+    cl = [c for c in facts.classes if c["name"] == cls]
+    if not cl:
+        raise AnalysisBroken("%s not found" % cls)
+    fields = {f["name"]: f for f in cl[0].get("fields", [])}
+    methods = [m for m in facts.methods_of(cls) if tbf.body(m) is not None and not m.get("inst")]
+    ctors = [m for m in methods if m["kind"] == "CXXConstructor" and m["params"]]
+    if len(ctors) != 1:
+        raise AnalysisBroken("%s: %d constructors with parameters" % (cls, len(ctors)))
+    ctor = ctors[0]
+    # the member holding the height: initialised from the first constructor parameter
+    hmem = [i["member"] for i in ctor.get("inits", []) if i.get("written") and any(z.get("k") == "DeclRefExpr" and z.get("did") == ctor["params"][0]["did"] for c_ in i.get("c", []) if c_ for z in walk(c_))]
+    if len(hmem) != 1:
+        raise AnalysisBroken("%s: member initialised from the tree height not found" % cls)
+    hmem = hmem[0]
+    decls = {v["did"]: v for v in walk(tbf.body(ctor)) if v.get("k") == "VarDecl"}
+
+    def val(e, depth=0):
+        e = strip(e)
+        k = e.get("k")
+        if depth > 6:
+            return None
+        if k == "IntegerLiteral":
+            return sympy.Integer(e["val"])
+        if k in ("MemberExpr", "CXXDependentScopeMemberExpr") and e.get("name") == hmem:
+            return H
+        if k == "DeclRefExpr" and e.get("did") == ctor["params"][0]["did"]:
+            return H
+        if k == "DeclRefExpr" and e.get("did") in decls:
+            d = decls[e["did"]]
+            asg = [x for x in walk(tbf.body(ctor)) if x.get("k") == "BinaryOperator" and x.get("op") == "=" and strip(kids(x)[0]).get("did") == e["did"]]
+            if kids(d) and not asg:
+                return val(kids(d)[0], depth + 1)
+            if len(asg) >= 1:
+                vs = [val(kids(a)[1], depth + 1) for a in asg]
+                return ("oneof", vs)
+            return None
+        if k in ("CallExpr",) and tbf.callee_name(e) in ("min", "max") and len(tbf.call_args(e)) == 2:
+            a, b = [val(x, depth + 1) for x in tbf.call_args(e)]
+            if a is None or b is None or isinstance(a, tuple) or isinstance(b, tuple):
+                return None
+            return sympy.Min(a, b) if tbf.callee_name(e) == "min" else sympy.Max(a, b)
+        if k in ("CXXStaticCastExpr", "CStyleCastExpr", "CXXFunctionalCastExpr") and len(kids(e)) == 1:
+            return val(kids(e)[0], depth + 1)
+        if k == "BinaryOperator" and e.get("op") in ("+", "-"):
+            a, b = [val(x, depth + 1) for x in kids(e)]
+            if a is None or b is None or isinstance(a, tuple) or isinstance(b, tuple):
+                return None
+            return a + b if e["op"] == "+" else a - b
+        return None
+    n = 0
+    for x in walk(tbf.body(ctor)):
+        if not (x.get("k") == "BinaryOperator" and x.get("op") == "=" and strip(kids(x)[1]).get("k") == "CXXNewExpr" and strip(kids(x)[1]).get("array")):
+            continue
+        l = strip(kids(x)[0])
+        if l.get("k") not in ("MemberExpr", "CXXDependentScopeMemberExpr") or l.get("name") not in fields:
+            continue
+        tname = l["name"]
+        ext = val(kids(strip(kids(x)[1]))[0])
+        if ext is None or isinstance(ext, tuple):
+            raise AnalysisBroken("%s: extent of the table '%s' not understood: %s" % (facts.loc(x), tname, facts.ntext(kids(strip(kids(x)[1]))[0])[:60]))
+        # fill range: for(l = lo; l < hi; ++l) loops of the constructor whose body (or a helper it calls with l) stores tname[l][...]
+        fills = []
+        for f_ in walk(tbf.body(ctor)):
+            if f_.get("k") == "ForStmt" and f_["c"][0] is not None and f_["c"][1] is not None:
+                iv = [v for v in kids(f_["c"][0]) if v.get("k") == "VarDecl"]
+                cd = strip(f_["c"][1])
+                if len(iv) == 1 and kids(iv[0]) and cd.get("k") == "BinaryOperator" and cd.get("op") == "<" and strip(kids(cd)[0]).get("did") == iv[0]["did"]:
+                    calls = [c_ for c_ in walk(f_["c"][3]) if c_.get("k") in ("CallExpr", "CXXMemberCallExpr") and any(strip(a_).get("did") == iv[0]["did"] for a_ in tbf.call_args(c_))]
+                    fills_here = False
+                    for c_ in calls:
+                        for g in methods:
+                            if g["name"] == tbf.callee_name(c_) and any(z.get("k") == "CXXNewExpr" for z in walk(tbf.body(g))) and tname in facts.ntext(tbf.body(g)):
+                                fills_here = True
+                    if fills_here:
+                        fills.append((val(kids(iv[0])[0]), val(kids(cd)[1]), f_))
+        if len(fills) != 1:
+            raise AnalysisBroken("%s: %d loops filling the table '%s' through a helper (1 confirmed by reading)" % (cls, len(fills), tname))
+        lo, hi, fl = fills[0]
+        his = hi[1] if isinstance(hi, tuple) else [hi]
+        if lo is None or any(h_ is None for h_ in his):
+            raise AnalysisBroken("%s: fill range of '%s' not understood" % (facts.loc(fl), tname))
+        # indices: methods subscripting tname[p] with p a parameter that has a literal default and that no caller passes
+        for g in methods:
+            for y in walk(tbf.body(g)):
+                if y.get("k") == "ArraySubscriptExpr" and strip(kids(y)[0]).get("name") == tname and strip(kids(y)[0]).get("k") in ("MemberExpr", "CXXDependentScopeMemberExpr"):
+                    idx = strip(kids(y)[1])
+                    pp = [p_ for p_ in g["params"] if p_["did"] == idx.get("did")]
+                    if not pp or not pp[0].get("c"):
+                        continue
+                    dv = [z for z in walk(pp[0]["c"][0]) if z.get("k") == "IntegerLiteral"]
+                    if len(dv) != 1:
+                        continue
+                    pos = [i_ for i_, p_ in enumerate(g["params"]) if p_["did"] == pp[0]["did"]][0]
+                    passed = False
+                    for h_ in facts.functions:
+                        if h_.get("inst") or tbf.body(h_) is None:
+                            continue
+                        for c_ in walk(tbf.body(h_)):
+                            if c_.get("k") in ("CallExpr", "CXXMemberCallExpr") and tbf.callee_name(c_) == g["name"] and len(tbf.call_args(c_)) > pos and h_.get("cls") != cls:
+                                passed = True
+                    if passed:
+                        continue       # a level is passed by some caller: that argument is checked where it is computed (C05.4)
+                    c0 = int(dv[0]["val"])
+                    n += 1
+                    bad_ext = [hv for hv in range(1, 9) if not (c0 < ext.subs(H, hv))]
+                    bad_fill = [hv for hv in range(1, 9) if not any((lo.subs(H, hv) <= c0) and (c0 < h_.subs(H, hv)) for h_ in his)]
+                    res.instance(R, "%s::%s %s[%s=%d]" % (cls, g["name"], tname, pp[0]["name"], c0), facts.loc(y), "extent %s, filled for levels [%s, %s), read at the default level %d" % (ext, lo, " or ".join(str(h_) for h_ in his), c0))
+                    if bad_ext:
+                        res.violation(R, tbf.rel(facts.path_of(y)), g["qname"], "beyond-extent:%s@%s" % (tname, g["name"]), y["l"][1],
+                                      "%s reads `%s[%d]` (the default level, no caller passes one) but the table is allocated with %s entries: for tree heights %s the entry is past the end of the allocation (M2M / L2L run on such trees as soon as the upper working level is below the leaf level)" % (g["name"], tname, c0, ext, bad_ext))
+                    elif bad_fill:
+                        res.violation(R, tbf.rel(facts.path_of(y)), g["qname"], "unfilled:%s@%s" % (tname, g["name"]), y["l"][1],
+                                      "%s reads `%s[%d]` but the constructor fills the levels [%s, %s) only: for tree heights %s the entry read is a null pointer" % (g["name"], tname, c0, lo, " or ".join(str(h_) for h_ in his), bad_fill))
     return n
